@@ -21,6 +21,7 @@ import Scico.Proofs.LinOps12
 import Scico.Proofs.LinOps13
 import Scico.Proofs.LinOps14
 import Scico.Proofs.LinOps15
+import Scico.Proofs.LinOps16
 import Mathlib.Data.Complex.Basic
 import Mathlib.Tactic.NormNum
 
@@ -956,5 +957,23 @@ theorem C04_conv_init_errors (hs is : List Nat) (nd : Option Nat) (a b : DT) (k 
 example : circInit [3, 2] [4] (some 1) false false .f64 .f64 = some ([3, 4], .f64, true) := by decide
 example : circInit [2, 3] [3, 4] (some 1) false true .c128 .f64 = none := by decide   -- (2,4) vs (3,4) do not broadcast
 example : broadcastShapes [2, 1, 4] [3, 1] = some [2, 3, 4] := by decide
+
+
+/-! ### N-d circular convolution with a filter longer than some axes -/
+
+/-- `C04_circ_nd_fft` without the restriction `ks ≤ dims`: for a filter of ANY shape (same rank), what
+    `CircularConvolve._eval` computes is the N-d circular convolution with the filter CROPPED to `min(ks, dims)` axis by
+    axis (`fftn(h, s=dims)` crops), `cropFilter ks dims h = h[:n_0, :n_1, …]`. -/
+theorem C04_circ_nd_fft_crop {F : Type} [Field F] (dims : List Nat) (ws : List F) (ks cs : List Nat) (s : F)
+    (h x : V F) (p : Nat) (hr : Roots dims ws) (hk : ks.length = dims.length) (hc : cs.length = dims.length)
+    (hs : s * (prodL dims : F) = 1) (hp : p < prodL dims) :
+    circNdSpecEval dims ws (ws.map (·⁻¹)) s
+        (fun f => dftNd dims ws (padNd ks dims h) f * phaseNd dims (ws.map (·⁻¹)) cs f) x p
+      = circNd (minShape ks dims) dims cs (cropFilter ks dims h) x p :=
+  circNd_fft_crop dims ws ks cs s h x p hr hk hc hs hp
+
+-- a (2,3) filter on a (3,2) image: cropped to (2,2), keeping h[0,0], h[0,1], h[1,0], h[1,1]
+example : minShape [2, 3] [3, 2] = [2, 2]
+    ∧ (List.range 4).map (cropFilter [2, 3] [3, 2] (fun q => [10, 11, 12, 20, 21, 22].getD q 0)) = [10, 11, 20, 21] := by decide
 
 end Scico.Props.C04
